@@ -72,7 +72,7 @@ theorem pieceLength_ofBlob (crc : Bytes → Nat) (pl : Nat) (blob : Bytes) (hpl 
         rw [← hlast, Nat.mul_add, Nat.mul_one]
       omega
     have h6 : min pl (blob.length - pl * i) = blob.length - pl * i := by omega
-    rw [← this, h6]
+    rw [h6]
     have : ((pl * i : Nat) : Int) = (pl : Int) * (i : Int) := by simp
     omega
   · have : ¬ (i : Int) = ((numPiecesOf pl blob.length : Nat) : Int) - 1 := by omega
@@ -123,7 +123,7 @@ theorem getElem?_writeAt (f : Bytes) (off : Nat) (d : Bytes) (h : off + d.length
   rw [hl]
   by_cases h1 : j < off
   · have : ¬ (off ≤ j ∧ j < off + d.length) := by omega
-    simp [h1, this, List.getElem?_take]
+    simp [h1, this]
   · rw [if_neg h1, List.getElem?_append]
     by_cases h2 : j - off < d.length
     · have : off ≤ j ∧ j < off + d.length := by omega
